@@ -185,6 +185,11 @@ func (r *Rows) Columns() []string {
 func (r *Rows) Next(dest []driver.Value) error {
 	row, ok := <-r.rows
 	if !ok {
+		if r.err == io.EOF {
+			// a page read beyond the end of the file (corrupt or truncated
+			// database). database/sql takes io.EOF for the end of the rows.
+			return io.ErrUnexpectedEOF
+		}
 		if r.err != nil {
 			return r.err
 		}
